@@ -37,15 +37,13 @@ package interp
 import (
 	"bytes"
 	"fmt"
+	"go/token"
 	"go/types"
 	"io"
-	"reflect"
 	"strings"
-	"sync"
 	"unsafe"
 
 	"golang.org/x/tools/go/ssa"
-	"golang.org/x/tools/go/types/typeutil"
 )
 
 type value interface{}
@@ -79,124 +77,26 @@ type rtype struct {
 	t types.Type
 }
 
-// Hash functions and equivalence relation:
-
-// hashString computes the FNV hash of s.
-func hashString(s string) int {
-	var h uint32
-	for i := 0; i < len(s); i++ {
-		h ^= uint32(s[i])
-		h *= 16777619
+func sameType(x, y types.Type) bool {
+	if y == nil {
+		return x == nil
 	}
-	return int(h)
-}
-
-var (
-	mu     sync.Mutex
-	hasher = typeutil.MakeHasher()
-)
-
-// hashType returns a hash for t such that
-// types.Identical(x, y) => hashType(x) == hashType(y).
-func hashType(t types.Type) int {
-	return int(hasher.Hash(t))
-}
-
-// usesBuiltinMap returns true if the built-in hash function and
-// equivalence relation for type t are consistent with those of the
-// interpreter's representation of type t.  Such types are: all basic
-// types (bool, numbers, string), pointers and channels.
-//
-// usesBuiltinMap returns false for types that require a custom map
-// implementation: interfaces, arrays and structs.
-//
-// Panic ensues if t is an invalid map key type: function, map or slice.
-func usesBuiltinMap(t types.Type) bool {
-	switch t := t.(type) {
-	case *types.Basic, *types.Chan, *types.Pointer:
-		return true
-	case *types.Named, *types.Alias:
-		return usesBuiltinMap(t.Underlying())
-	case *types.Interface, *types.Array, *types.Struct:
+	if x == nil {
 		return false
 	}
-	panic(fmt.Sprintf("invalid map key type: %T", t))
+	return types.Identical(x, y)
 }
 
-func (x array) eq(t types.Type, _y interface{}) bool {
-	y := _y.(array)
-	tElt := t.Underlying().(*types.Array).Elem()
-	for i, xi := range x {
-		if !equals(tElt, xi, y[i]) {
-			return false
-		}
-	}
-	return true
-}
-
-func (x array) hash(t types.Type) int {
-	h := 0
-	tElt := t.Underlying().(*types.Array).Elem()
-	for _, xi := range x {
-		h += hash(t, tElt, xi)
-	}
-	return h
-}
-
-func (x structure) eq(t types.Type, _y interface{}) bool {
-	y := _y.(structure)
-	tStruct := t.Underlying().(*types.Struct)
-	for i, n := 0, tStruct.NumFields(); i < n; i++ {
-		if f := tStruct.Field(i); !f.Anonymous() {
-			if !equals(f.Type(), x[i], y[i]) {
-				return false
-			}
-		}
-	}
-	return true
-}
-
-func (x structure) hash(t types.Type) int {
-	tStruct := t.Underlying().(*types.Struct)
-	h := 0
-	for i, n := 0, tStruct.NumFields(); i < n; i++ {
-		if f := tStruct.Field(i); !f.Anonymous() {
-			h += hash(t, f.Type(), x[i])
-		}
-	}
-	return h
-}
-
-// nil-tolerant variant of types.Identical.
-func sameType(x, y types.Type) bool {
-	if x == nil {
-		return y == nil
-	}
-	return y != nil && types.Identical(x, y)
-}
-
-func (x iface) eq(t types.Type, _y interface{}) bool {
-	y := _y.(iface)
-	return sameType(x.t, y.t) && (x.t == nil || equals(x.t, x.v, y.v))
-}
-
-func (x iface) hash(outer types.Type) int {
-	return hashType(x.t)*8581 + hash(outer, x.t, x.v)
-}
-
-func (x rtype) hash(_ types.Type) int {
-	return hashType(x.t)
-}
-
-func (x rtype) eq(_ types.Type, y interface{}) bool {
-	return types.Identical(x.t, y.(rtype).t)
-}
-
-// equals returns true iff x and y are equal according to Go's
-// linguistic equivalence relation for type t.
-// In a well-typed program, the dynamic types of x and y are
-// guaranteed equal.
+// equals returns the concrete truth of x == y, forking on symbolic comparisons.
 func equals(t types.Type, x, y value) bool {
+	return truth(equalsV(t, x, y))
+}
+
+// equalsV returns x == y as a bool or a symbolic Bool.
+func equalsV(t types.Type, x, y value) value {
+	if isSym(x) || isSym(y) {
+		return symBinop(token.EQL, x, y)
+	}
 	switch x := x.(type) {
 	case bool:
 		return x == y.(bool)
@@ -230,83 +130,79 @@ func equals(t types.Type, x, y value) bool {
 		return x == y.(complex64)
 	case complex128:
 		return x == y.(complex128)
-	case string:
-		return x == y.(string)
+	case string, symstr:
+		return strEq(x, y)
 	case *value:
-		return x == y.(*value)
-	case chan value:
-		return x == y.(chan value)
+		yp, ok := y.(*value)
+		return ok && x == yp
+	case *mchan:
+		return x == y.(*mchan)
 	case structure:
-		return x.eq(t, y)
+		ys := y.(structure)
+		var st *types.Struct
+		if t != nil {
+			st, _ = t.Underlying().(*types.Struct)
+		}
+		var acc value = true
+		for i := range x {
+			var ft types.Type
+			if st != nil && i < st.NumFields() {
+				if st.Field(i).Name() == "_" {
+					continue
+				}
+				ft = st.Field(i).Type()
+			}
+			acc = vand(acc, equalsV(ft, x[i], ys[i]))
+			if b, ok := acc.(bool); ok && !b {
+				return false
+			}
+		}
+		return acc
 	case array:
-		return x.eq(t, y)
+		ya := y.(array)
+		var et types.Type
+		if t != nil {
+			if at, ok := t.Underlying().(*types.Array); ok {
+				et = at.Elem()
+			}
+		}
+		var acc value = true
+		for i := range x {
+			acc = vand(acc, equalsV(et, x[i], ya[i]))
+			if b, ok := acc.(bool); ok && !b {
+				return false
+			}
+		}
+		return acc
 	case iface:
-		return x.eq(t, y)
+		yi := y.(iface)
+		if !sameType(x.t, yi.t) {
+			return false
+		}
+		if x.t == nil {
+			return true
+		}
+		if !types.Comparable(x.t) {
+			panic(runtimeError("comparing uncomparable type " + x.t.String()))
+		}
+		return equalsV(x.t, x.v, yi.v)
 	case rtype:
-		return x.eq(t, y)
+		yr, ok := y.(rtype)
+		return ok && types.Identical(x.t, yr.t)
+	case unsafePtr:
+		yu, ok := y.(unsafePtr)
+		return ok && x.p == yu.p
+	case unsafe.Pointer:
+		return x == y.(unsafe.Pointer)
+	}
+	if r, ok := nativeEquals(x, y); ok {
+		return r
 	}
 
 	// Since map, func and slice don't support comparison, this
 	// case is only reachable if one of x or y is literally nil
 	// (handled in eqnil) or via interface{} values.
-	panic(fmt.Sprintf("comparing uncomparable type %s", t))
-}
-
-// Returns an integer hash of x such that equals(x, y) => hash(x) == hash(y).
-// The outer type is used only for the "unhashable" panic message.
-func hash(outer, t types.Type, x value) int {
-	switch x := x.(type) {
-	case bool:
-		if x {
-			return 1
-		}
-		return 0
-	case int:
-		return x
-	case int8:
-		return int(x)
-	case int16:
-		return int(x)
-	case int32:
-		return int(x)
-	case int64:
-		return int(x)
-	case uint:
-		return int(x)
-	case uint8:
-		return int(x)
-	case uint16:
-		return int(x)
-	case uint32:
-		return int(x)
-	case uint64:
-		return int(x)
-	case uintptr:
-		return int(x)
-	case float32:
-		return int(x)
-	case float64:
-		return int(x)
-	case complex64:
-		return int(real(x))
-	case complex128:
-		return int(real(x))
-	case string:
-		return hashString(x)
-	case *value:
-		return int(uintptr(unsafe.Pointer(x)))
-	case chan value:
-		return int(uintptr(reflect.ValueOf(x).Pointer()))
-	case structure:
-		return x.hash(t)
-	case array:
-		return x.hash(t)
-	case iface:
-		return x.hash(t)
-	case rtype:
-		return x.hash(t)
-	}
-	panic(fmt.Sprintf("unhashable type %v", outer))
+	panic(runtimeError(fmt.Sprintf("comparing uncomparable type %s (%T)", t, x)))
 }
 
 // reflect.Value struct values don't have a fixed shape, since the
@@ -354,6 +250,9 @@ func store(T types.Type, addr *value, v value) {
 			store(T.Elem(), &lhs[i], rhs[i])
 		}
 	default:
+		if theInterp != nil && theInterp.logging {
+			theInterp.logStore(addr)
+		}
 		*addr = v
 	}
 }
@@ -366,35 +265,28 @@ func writeValue(buf *bytes.Buffer, v value) {
 	case nil, bool, int, int8, int16, int32, int64, uint, uint8, uint16, uint32, uint64, uintptr, float32, float64, complex64, complex128, string:
 		fmt.Fprintf(buf, "%v", v)
 
-	case map[value]value:
+	case *smap:
 		buf.WriteString("map[")
-		sep := ""
-		for k, e := range v {
-			buf.WriteString(sep)
-			sep = " "
-			writeValue(buf, k)
-			buf.WriteString(":")
-			writeValue(buf, e)
-		}
-		buf.WriteString("]")
-
-	case *hashmap:
-		buf.WriteString("map[")
-		sep := " "
-		for _, e := range v.entries() {
-			for e != nil {
-				buf.WriteString(sep)
-				sep = " "
-				writeValue(buf, e.key)
+		if v != nil {
+			for i, k := range v.keys {
+				if i > 0 {
+					buf.WriteString(" ")
+				}
+				writeValue(buf, k)
 				buf.WriteString(":")
-				writeValue(buf, e.value)
-				e = e.next
+				writeValue(buf, v.vals[i])
 			}
 		}
 		buf.WriteString("]")
 
-	case chan value:
-		fmt.Fprintf(buf, "%v", v) // (an address)
+	case *mchan:
+		fmt.Fprintf(buf, "%p", v)
+
+	case sym:
+		buf.WriteString("<sym " + v.e.String() + ">")
+
+	case symstr:
+		buf.WriteString(describeStr(v))
 
 	case *value:
 		if v == nil {
@@ -488,37 +380,23 @@ func (it *stringIter) next() tuple {
 	return okv
 }
 
-type mapIter struct {
-	iter *reflect.MapIter
-	ok   bool
+// symStringIter ranges over a string with symbolic bytes by calling the interpreted
+// utf8.DecodeRuneInString on the remaining suffix.
+type symStringIter struct {
+	s symstr
+	i int
 }
 
-func (it *mapIter) next() tuple {
-	it.ok = it.iter.Next()
-	if !it.ok {
-		return []value{false, nil, nil}
+func (it *symStringIter) next() tuple {
+	okv := make(tuple, 3)
+	if it.i >= len(it.s.b) {
+		okv[0] = false
+		return okv
 	}
-	k, v := it.iter.Key().Interface(), it.iter.Value().Interface()
-	return []value{true, k, v}
-}
-
-type hashmapIter struct {
-	iter *reflect.MapIter
-	ok   bool
-	cur  *entry
-}
-
-func (it *hashmapIter) next() tuple {
-	for {
-		if it.cur != nil {
-			k, v := it.cur.key, it.cur.value
-			it.cur = it.cur.next
-			return []value{true, k, v}
-		}
-		it.ok = it.iter.Next()
-		if !it.ok {
-			return []value{false, nil, nil}
-		}
-		it.cur = it.iter.Value().Interface().(*entry)
-	}
+	r, n := decodeRuneSym(normStr(it.s.b[it.i:]))
+	okv[0] = true
+	okv[1] = it.i
+	okv[2] = r
+	it.i += n
+	return okv
 }
